@@ -2,6 +2,8 @@ pub mod c01;
 pub mod c02;
 pub mod c03;
 pub mod c10;
+pub mod c12;
+pub mod c13;
 pub mod c15;
 
 use crate::rt::Prop;
@@ -12,6 +14,8 @@ pub fn lookup(id: &str) -> Option<&'static dyn Prop> {
         "C02" => Some(&c02::C02),
         "C03" => Some(&c03::C03),
         "C10" => Some(&c10::C10),
+        "C12" => Some(&c12::C12),
+        "C13" => Some(&c13::C13),
         "C15" => Some(&c15::C15),
         _ => None,
     }
